@@ -47,6 +47,73 @@ def check_entities(run, src, file, nodes, stats, label):
     return True
 
 
+def big_project(run, rng, stats, quick):
+    """a project with machine-generated sources of a megabyte and more that take seconds to parse (statements that stay
+    ambiguous to their end), listed before ordinary large sources: every reported method of every file is where the
+    report says, and no file is dropped"""
+    root = C.scratch("c04big")
+    try:
+        stmt = "    x = (a) -(a) -(a) -(a) -(a) -(a) -(a) -(a) - 1;\n"
+        want = {}
+        for i in range(2 if quick else 5):
+            parts, n, k = ["package gen;\n\nclass Table%d {\n  int a; int x;\n" % i], 0, 0
+            while n < (1200000 if quick else 3000000):
+                m = "  void t%d_%d() {\n" % (i, k) + stmt * 100 + "  }\n"
+                parts.append(m)
+                n += len(m)
+                k += 1
+            parts.append("}\n")
+            os.makedirs(os.path.join(root, "a_generated"), exist_ok=True)
+            open(os.path.join(root, "a_generated", "Table%d.java" % i), "w").write("".join(parts))
+            want[os.path.join(root, "a_generated", "Table%d.java" % i)] = k
+        for i in range(6 if quick else 8):
+            parts, n, k = ["package app;\n\nclass Svc%d {\n" % i], 0, 0
+            while n < (700000 if quick else 1600000):
+                m = "    int s%d_%d(int a, int b) {\n        int r = a;\n\n" % (i, k)
+                for j in range(25):
+                    m += "        if (a > b) {\n            r = r + %d;\n        }\n\n        r = foo(r, b);\n" % (k * 25 + j)
+                m += "        return r;\n    }\n\n"
+                parts.append(m)
+                n += len(m)
+                k += 1
+            parts.append("    int foo(int p, int q) {\n        return p;\n    }\n}\n")
+            os.makedirs(os.path.join(root, "b_app"), exist_ok=True)
+            open(os.path.join(root, "b_app", "Svc%d.java" % i), "w").write("".join(parts))
+            want[os.path.join(root, "b_app", "Svc%d.java" % i)] = k + 1
+        rc, so, se = C.cli(["query", "--project", root, "--query", "FROM method_declaration AS md SELECT md.getName()", "--output", "json", "--disable-metrics"], timeout=900)
+        run.count(("big-project", len(want)))
+        stats["big_project_files"] += len(want)
+        from checks import c18
+        raw = c18.last_json(so)
+        try:
+            doc = json.loads(raw)
+        except Exception:
+            doc = None
+        if rc != 0 or doc is None:
+            run.violation("C04:big-project-scan-failed", "the scan of %d large sources ends with rc=%s and no report" % (len(want), rc),
+                          dict(files={os.path.relpath(f, root): n for f, n in want.items()}, stderr=se[-600:].decode("utf-8", "replace")))
+            return
+        srcs = {f: open(f, "rb").read() for f in want}
+        got = collections.Counter()
+        for e in doc.get("result_set") or []:
+            got[e["file"]] += 1
+            stats["big_project_entities"] += 1
+            src = srcs.get(e["file"])
+            if src is None or not location_ok(src, e["line"], e["code"].encode("utf-8")):
+                run.violation("C04:location-mismatch", "method reported for %s line %s, but its snippet %r does not begin on that line of that file (project of %d large sources)" %
+                              (os.path.relpath(e["file"], root), e["line"], e["code"][:50], len(want)),
+                              dict(file=os.path.relpath(e["file"], root), line=e["line"], snippet=e["code"][:300],
+                                   files={os.path.relpath(f, root): len(b) for f, b in srcs.items()}, generator="checks/c04.py big_project"))
+                return
+        for f, n in want.items():
+            if got[f] != n:
+                run.violation("C04:big-project-file-incomplete", "%s declares %d methods, %d are reported (project of %d large sources)" % (os.path.relpath(f, root), n, got[f], len(want)),
+                              dict(file=os.path.relpath(f, root), files={os.path.relpath(x, root): len(b) for x, b in srcs.items()}, generator="checks/c04.py big_project"))
+                return
+    finally:
+        shutil.rmtree(root, ignore_errors=True)
+
+
 def run(run):
     C.build_driver()
     h, d = C.Harness(), C.Driver()
@@ -151,6 +218,7 @@ def run(run):
                         cur = (f, ln, i + 1)
         finally:
             shutil.rmtree(root, ignore_errors=True)
+        big_project(run, rng, stats, quick)
     finally:
         h.close()
         d.close()
